@@ -171,6 +171,17 @@ def Stack.getitemTuple (s : Stack) (items : List Item) : Except Err Stack :=
       let t ← s.frameItem f
       pure { t with roi := r }
 
+/-! ### what the stack shows -/
+
+/-- `ImageStack.get_image()` for one colour channel: `np.stack([frame.data[...] for frame in self])`; frame `i` is page
+    `_start_idx + i·_step` (`_get_frame`), cut by `Roi.__call__`.  `raw p` is the stored image of page `p`. -/
+def Stack.image {α} (s : Stack) (raw : Int → List (List α)) : List (List (List α)) :=
+  s.frames.map fun p => s.roi.apply (raw p)
+
+/-- `ImageStack.shape` without the colour axis: `(num_frames, *self._src._shape)`, `Roi.shape = (y_max - y_min,
+    x_max - x_min)`. -/
+def Stack.shape (s : Stack) : Int × Int × Int := (s.numFrames, s.roi.height, s.roi.width)
+
 /-! ### pages: files, timestamps -/
 
 /-- `TiffStack.get_frame`: `cumulative_len = cumsum([0] + lens)`, `file = argmax(frame < cumulative_len) - 1`,
@@ -256,6 +267,32 @@ def Stack.sliceTime (s : Stack) (pages : List Page) (a b : Bound) (c : Option In
   let b' ← s.timeToIndex pages false b
   some (s.sliceFrames a' b' c)
 
+/-! ### programs of indexing operations -/
+
+/-- One indexing operation on a stack (the tether lives beside the stack, see `TStack`). -/
+inductive Op where
+  | frame (f : Item)
+  | crop (x0 x1 y0 y1 : Option Int)
+  | tuple (items : List Item)
+  | time (a b : Bound) (c : Option Int)
+deriving Repr, DecidableEq
+
+/-- `none`: a time-like bound could not be resolved (a visible frame that is not a page — never for a stack the code builds). -/
+def Stack.applyOp (pages : List Page) (s : Stack) : Op → Option (Except Err Stack)
+  | .frame f => some (s.frameItem f)
+  | .crop x0 x1 y0 y1 => some (s.cropPixels x0 x1 y0 y1)
+  | .tuple items => some (s.getitemTuple items)
+  | .time a b c => s.sliceTime pages a b c
+
+/-- A program: the operations one after the other, stopping at the first exception. -/
+def Stack.runOps (pages : List Page) : Stack → List Op → Option (Except Err Stack)
+  | s, [] => some (.ok s)
+  | s, op :: rest =>
+    match s.applyOp pages op with
+    | none => none
+    | some (.error e) => some (.error e)
+    | some (.ok s') => Stack.runOps pages s' rest
+
 /-! ### tether geometry (generic over the number type: executed at `Float`, proved at `ℝ`) -/
 
 section tether
@@ -318,6 +355,15 @@ def Tether.withTether (t : Tether α) (p q : Pt α) : Tether α :=
       let r := unrotate e ⟨p.x + t.offX, p.y + t.offY⟩
       ⟨r.x - t.offX, r.y - t.offY⟩
     Tether.new t.offX t.offY (some (un p, un q))
+
+/-- `ImageStack.define_tether(point1, point2)` on a pixel-calibrated stack: the points are given in image units (µm)
+    and divided by `_pixel_calibration_factors` (`cal` µm per pixel on both axes) before `TiffStack.with_tether`. -/
+def Tether.defineCal (t : Tether α) (cal : α) (p q : Pt α) : Tether α :=
+  t.withTether ⟨p.x / cal, p.y / cal⟩ ⟨q.x / cal, q.y / cal⟩
+
+/-- `plot_tether`: the processed ends in image units (`ends * _pixel_calibration_factors`). -/
+def Tether.endsCal (t : Tether α) (cal : α) : Option (Pt α × Pt α) :=
+  t.endsProcessed.map fun (a, b) => (⟨a.x * cal, a.y * cal⟩, ⟨b.x * cal, b.y * cal⟩)
 
 /-! ### affine maps (`TransformMatrix`): colour alignment and tether rotation of the pixel data
 
@@ -409,8 +455,9 @@ def kymoWindowUnfixed (x1 y1 x2 y2 w h : Int) : Except Err (Int × Int × Int ×
     else .ok (x1, x2 + 1, ymin, ymax)
 
 /-- the same after the repair of finding F20 (`/repo` commit "clamp the left edge of the tether window"):
-    `xmin = max(floor(x1), 0)`. -/
-def kymoWindow (x1 y1 x2 y2 w h : Int) : Except Err (Int × Int × Int × Int) :=
+    `xmin = max(floor(x1), 0)` — the code as pinned now.  A tether whose RIGHT end lies left of the (cropped) image too
+    still hands a negative `xmax` to `crop_by_pixels` (finding F20b, witness `F20b_witness`). -/
+def kymoWindowPinned (x1 y1 x2 y2 w h : Int) : Except Err (Int × Int × Int × Int) :=
   if y1 ≠ y2 then .error .value
   else if w < 0 then .error .value
   else
@@ -418,6 +465,17 @@ def kymoWindow (x1 y1 x2 y2 w h : Int) : Except Err (Int × Int × Int × Int) :
     let ymax := y2 + w + 1
     if ymin < 0 ∨ ymax > h then .error .value
     else .ok (max x1 0, x2 + 1, ymin, ymax)
+
+/-- the window with both ends kept from wrapping (`xmax = max(floor(x2) + 1, 0)`, proposed repair of F20b); identical to
+    `kymoWindowPinned` whenever the right tether end is not left of the image (`kymoWindow_eq_pinned`). -/
+def kymoWindow (x1 y1 x2 y2 w h : Int) : Except Err (Int × Int × Int × Int) :=
+  if y1 ≠ y2 then .error .value
+  else if w < 0 then .error .value
+  else
+    let ymin := y1 - w
+    let ymax := y2 + w + 1
+    if ymin < 0 ∨ ymax > h then .error .value
+    else .ok (max x1 0, max (x2 + 1) 0, ymin, ymax)
 
 /-- All consecutive differences equal the first one (`np.all(np.diff(x) == np.diff(x)[0])`). -/
 def constDiffs : List Int → Bool
@@ -442,6 +500,86 @@ def Stack.kymoStackUnfixed (s : Stack) (x1 y1 x2 y2 w : Int) : Except Err Stack 
   let (a, b, c, d) ← kymoWindowUnfixed x1 y1 x2 y2 w s.roi.height
   s.cropPixels (some a) (some b) (some c) (some d)
 
+/-- the code as pinned now (finding F20b): a negative `xmax` wraps around in `crop_by_pixels` -/
+def Stack.kymoStackPinned (s : Stack) (x1 y1 x2 y2 w : Int) : Except Err Stack := do
+  let (a, b, c, d) ← kymoWindowPinned x1 y1 x2 y2 w s.roi.height
+  s.cropPixels (some a) (some b) (some c) (some d)
+
+/-! ### kymograph content (`_kymo_from_image_stack` after the window has been cut) -/
+
+/-- The head of `_kymo_from_image_stack` on the exposure ranges `frame_timestamp_ranges()`, in the order of the code:
+    `line_time = np.diff(starts)[0]` (fewer than two frames: the undocumented `IndexError`), all differences equal to
+    it, `exp_time = (stops - starts)[0]`, all exposures equal to it, `start = starts[0]`.
+    Answers `(line_time, exposure, start)` in ns. -/
+def kymoTimes (ranges : List (Int × Int)) : Except Err (Int × Int × Int) :=
+  match ranges with
+  | a :: b :: _ =>
+    let lt := b.1 - a.1
+    if !((ranges.zip (ranges.drop 1)).all fun (x, y) => y.1 - x.1 == lt) then .error .value
+    else
+      let ex := a.2 - a.1
+      if !(ranges.all fun r => r.2 - r.1 == ex) then .error .value
+      else .ok (lt, ex, a.1)
+  | _ => .error .index
+
+/-- The `reduce` argument of `to_kymo` for the NumPy reducers that combine the rows one after the other:
+    `np.sum` (the default), `np.max`, `np.min`. -/
+inductive Reduce where
+  | sum
+  | max
+  | min
+deriving Repr, DecidableEq
+
+def Reduce.op : Reduce → Int → Int → Int
+  | .sum, a, b => a + b
+  | .max, a, b => if a < b then b else a
+  | .min, a, b => if b < a then b else a
+
+/-- `reduce(window, axis=0)` of the rows of one frame's window: the rows are combined one after the other. -/
+def foldRows (red : Reduce) : List (List Int) → List Int
+  | [] => []
+  | r :: rs => rs.foldl (List.zipWith red.op) r
+
+/-- One line of the kymograph from the window of one frame: `reduce(image, axis=1)` when `half_window > 0`; for
+    `half_window = 0` nothing is reduced, the single row is what `get_image()`'s `squeeze` leaves. -/
+def kymoLine (red : Reduce) (w : Int) (win : List (List Int)) : List Int :=
+  if w > 0 then foldRows red win else win.headD []
+
+/-- `np.swapaxes(image, 0, 1)`: `(time, x) → (x, time)` for `n` positions. -/
+def swapAxes (n : Nat) (lines : List (List Int)) : List (List Int) :=
+  (List.range n).map fun x => lines.map fun l => l.getD x 0
+
+/-- What `to_kymo` hands to `_kymo_from_array`, for one colour channel. -/
+structure Kymo where
+  lineTime : Int
+  exposure : Int
+  start : Int
+  image : List (List Int)
+deriving Repr, DecidableEq
+
+/-- `ImageStack.to_kymo(half_window = w, reduce = red)` for one colour channel.  `raw p` is the stored image of page `p`,
+    `ends` the floors of the processed tether ends (`none`: no tether); `none` = a visible frame is not a page. -/
+def Stack.toKymo (s : Stack) (pages : List Page) (raw : Int → List (List Int))
+    (ends : Option (Int × Int × Int × Int)) (w : Int) (red : Reduce := .sum) : Option (Except Err Kymo) := do
+  let r ← s.ranges pages false false
+  match kymoTimes r with
+  | .error e => some (.error e)
+  | .ok (lt, ex, st) =>
+    match ends with
+    | none => some (.error .value)
+    | some (x1, y1, x2, y2) =>
+      match s.kymoStack x1 y1 x2 y2 w with
+      | .error e => some (.error e)
+      | .ok ks =>
+        let lines := ks.frames.map fun p => kymoLine red w (ks.roi.apply (raw p))
+        some (.ok ⟨lt, ex, st, swapAxes ks.roi.width.toNat lines⟩)
+
+/-- The synthetic pages of the harness (`builders_tiff.pixel_value`): sample `ch` of `C` of pixel `(row, col)` of page
+    `p` of `h × w` pixels is `1 + (((p·h + row)·w + col)·C + ch)`. -/
+def encPage (h w C ch : Nat) (p : Int) : List (List Int) :=
+  (List.range h).map fun (r : Nat) => (List.range w).map fun (c : Nat) =>
+    1 + (((p * (h : Int) + (r : Int)) * (w : Int) + (c : Int)) * (C : Int) + (ch : Int))
+
 /-! ### protocol -/
 open Verif.Proto
 
@@ -455,15 +593,18 @@ def showRanges (l : List (Int × Int)) : String :=
 structure TStack where
   stk : Stack
   teth : Tether Float
+  /-- `pixelsize_um` once a tether was defined in image units (step `U`): the tether is then reported as `plot_tether`
+      draws it, in image units -/
+  cal : Option Float := none
 
 def showPt (p : Pt Float) : String := showFloat p.x ++ "," ++ showFloat p.y
 
-def showTether (t : Tether Float) : String :=
-  match t.endsProcessed with
+def showTether (t : Tether Float) (cal : Option Float := none) : String :=
+  match (match cal with | none => t.endsProcessed | some c => t.endsCal c) with
   | none => "none"
   | some (a, b) => showPt a ++ "," ++ showPt b
 
-/-- `ok <frames> <roi> <exposure ranges> <frame ranges> <start> <stop> <tether>` -/
+/-- `ok <frames> <roi> <exposure ranges> <frame ranges> <start> <stop> <tether> nf=<num_frames> shape=<n>x<rows>x<cols>` -/
 def showState (t : TStack) (pages : List Page) (legacy : Bool) : String :=
   let s := t.stk
   "ok " ++ showIntList s.frames ++ " " ++ showRoi s.roi ++ " "
@@ -471,7 +612,8 @@ def showState (t : TStack) (pages : List Page) (legacy : Bool) : String :=
     ++ (match s.ranges pages true legacy with | some r => showRanges r | none => "?") ++ " "
     ++ (match s.start pages with | some v => toString v | none => "?") ++ " "
     ++ (match s.stop pages with | some v => toString v | none => "?") ++ " "
-    ++ showTether t.teth
+    ++ showTether t.teth t.cal
+    ++ " nf=" ++ toString s.shape.1 ++ " shape=" ++ toString s.shape.1 ++ "x" ++ toString s.shape.2.1 ++ "x" ++ toString s.shape.2.2
 
 def splitColon (s : String) : List String := s.splitOn ":"
 
@@ -491,7 +633,23 @@ def ofInt (i : Int) : Float := Float.ofInt i
 def floorInt (x : Float) : Int := (Float.floor x).toInt64.toInt
 
 def withRoi (t : TStack) (r : Except Err Stack) : Except Err TStack :=
-  r.map fun s => ⟨s, t.teth.withNewOffsets (ofInt s.roi.xMin) (ofInt s.roi.yMin)⟩
+  r.map fun s => ⟨s, t.teth.withNewOffsets (ofInt s.roi.xMin) (ofInt s.roi.yMin), t.cal⟩
+
+/-- The indexing operations of a program token (`s`, `i`, `c`, `g`, `t` of `step`). -/
+def op? (tok : String) : Option Op :=
+  match tok.splitOn "," with
+  | ["s", a, b, c] => do
+    let a ← optInt? a; let b ← optInt? b; let c ← optInt? c
+    some (.frame (.slice a b c))
+  | ["i", k] => (int? k).map fun k => .frame (.int k)
+  | ["c", a, b, c, d] => do
+    let a ← optInt? a; let b ← optInt? b; let c ← optInt? c; let d ← optInt? d
+    some (.crop a b c d)
+  | "g" :: items => (items.mapM item?).map .tuple
+  | ["t", a, b, c] => do
+    let a ← bound? a; let b ← bound? b; let c ← optInt? c
+    some (.time a b c)
+  | _ => none
 
 /-- One step of a program.
   `s,a,b,c`       frame slice (`N` = None)        `i,k`   integer index
@@ -499,31 +657,20 @@ def withRoi (t : TStack) (r : Except Err Stack) : Except Err TStack :=
   `g,<item>,<item>,…`   tuple index, items `k` or `a:b` or `a:b:c`
   `t,a,b,c`       frame slice with time-like bounds (`r<ns>` = time string of that many ns)
   `T,x1,y1,x2,y2` `define_tether` (doubles as bit patterns)
+  `U,nm,x1,y1,x2,y2` `define_tether` on a stack calibrated with `nm` nm per pixel: points in µm; the tether is reported in µm
   `k,w`           the stack behind `to_kymo(w)` (timing checks, floors of the processed tether ends, window) -/
 def step (pages : List Page) (t : TStack) (op : String) : Option (Except Err TStack) :=
   match op.splitOn "," with
-  | ["s", a, b, c] => do
-    let a ← optInt? a; let b ← optInt? b; let c ← optInt? c
-    some ((t.stk.sliceFrames a b c).map fun s => { t with stk := s })
-  | ["i", k] => do
-    let k ← int? k
-    some ((t.stk.index k).map fun s => { t with stk := s })
-  | ["c", a, b, c, d] => do
-    let a ← optInt? a; let b ← optInt? b; let c ← optInt? c; let d ← optInt? d
-    some (withRoi t (t.stk.cropPixels a b c d))
   | ["u", a, b, c, d] => do
     let a ← optInt? a; let b ← optInt? b; let c ← optInt? c; let d ← optInt? d
     some (withRoi t (t.stk.cropPixelsUnfixed a b c d))
-  | "g" :: items => do
-    let items ← items.mapM item?
-    some (withRoi t (t.stk.getitemTuple items))
-  | ["t", a, b, c] => do
-    let a ← bound? a; let b ← bound? b; let c ← optInt? c
-    let r ← t.stk.sliceTime pages a b c
-    some (r.map fun s => { t with stk := s })
   | ["T", x1, y1, x2, y2] => do
     let x1 ← float? x1; let y1 ← float? y1; let x2 ← float? x2; let y2 ← float? y2
     some (.ok { t with teth := t.teth.withTether ⟨x1, y1⟩ ⟨x2, y2⟩ })
+  | ["U", nm, x1, y1, x2, y2] => do
+    let nm ← float? nm; let x1 ← float? x1; let y1 ← float? y1; let x2 ← float? x2; let y2 ← float? y2
+    let cal := nm / 1000.0   -- `float(json["Pixel calibration (nm/pix)"]) / 1000`
+    some (.ok { t with teth := t.teth.defineCal cal ⟨x1, y1⟩ ⟨x2, y2⟩, cal := some cal })
   | ["k", w] => do
     let w ← int? w
     let r ← t.stk.ranges pages false false
@@ -534,7 +681,14 @@ def step (pages : List Page) (t : TStack) (op : String) : Option (Except Err TSt
       | none => some (.error .value)
       | some (a, b) =>
         some (withRoi t (t.stk.kymoStack (floorInt a.x) (floorInt a.y) (floorInt b.x) (floorInt b.y) w))
-  | _ => none
+  | _ => do
+    -- the indexing operations go through the typed `Op` / `Stack.applyOp`; the ROI-changing ones move the tether origin
+    let o ← op? op
+    let r ← t.stk.applyOp pages o
+    match o with
+    | .crop .. => some (withRoi t r)
+    | .tuple _ => some (withRoi t r)
+    | _ => some (r.map fun s => { t with stk := s })
 
 def runProg (pages : List Page) : TStack → List String → Option (Except Err TStack)
   | t, [] => some (.ok t)
@@ -572,6 +726,13 @@ def points? (s : String) : Option (List (Pt Float)) :=
       shows up in the final image: `<state> x,y;x,y|x,y;x,y|…`
   `c07.run <h> <w> [starts] [stops] [expStops] <legacy T/F> op…`   run a program on a fresh stack of
       `len starts` pages of `h × w` pixels, answer the final state (or the first error)
+  `c07.ops <h> <w> [starts] [stops] [expStops] op…`   a program of indexing operations only (`s`, `i`, `c`, `g`, `t`) through
+      the typed `Stack.runOps`: `ok <frames> <roi>` or the first error
+  `c07.image <C> <h> <w> [starts] [stops] [expStops] <legacy> op…`   the program as for `c07.run` on pages of the
+      harness encoding; answers the pixel values of `get_image()` per stored sample: `image <frame/frame/…>|<sample 1>|…`
+  `c07.kymo <C> <h> <w> [starts] [stops] [expStops] <legacy> op… k,<hw>[,sum|max|min]`   the program as for `c07.run` (pages of the
+      harness encoding `encPage`, `C` samples per pixel), then `to_kymo(half_window = hw)`:
+      `kymo <line time ns> <exposure ns> <start> <image[x][t] of sample 0>|<sample 1>|…` or the error
   `c07.indices a b c n`     `slice(a,b,c).indices(n)` start/stop (self-test of the Python description)
   `c07.page [lens] frame`   `TiffStack.get_frame`: file and page within the file
   `c07.legacy [s…] [e…]`    `_frame_timestamps_from_exposure_timestamps`
@@ -581,7 +742,7 @@ def handle : List String → Option String
     let h ← nat? h; let w ← nat? w
     let pages ← pages? starts stops exps
     let legacy ← bool? legacy
-    let t0 : TStack := ⟨⟨0, pages.length, 1, ⟨0, w, 0, h⟩⟩, Tether.new 0.0 0.0 none⟩
+    let t0 : TStack := ⟨⟨0, pages.length, 1, ⟨0, w, 0, h⟩⟩, Tether.new 0.0 0.0 none, none⟩
     match ← runProg pages t0 prog with
     | .ok t => some (showState t pages legacy)
     | .error e => some e.show
@@ -592,12 +753,54 @@ def handle : List String → Option String
     let h ← nat? h; let w ← nat? w
     let pages ← pages? starts stops exps
     let legacy ← bool? legacy
-    let t0 : TStack := ⟨⟨0, pages.length, 1, ⟨0, w, 0, h⟩⟩, Tether.new 0.0 0.0 none⟩
+    let t0 : TStack := ⟨⟨0, pages.length, 1, ⟨0, w, 0, h⟩⟩, Tether.new 0.0 0.0 none, none⟩
     match ← runProg pages t0 prog with
     | .ok t =>
       let landed := (mats.zip pts).map fun (m, ps) => ps.map fun r => t.teth.land m r
       some (showState t pages legacy ++ " " ++ "|".intercalate (landed.map fun ps => ";".intercalate (ps.map showPt)))
     | .error e => some e.show
+  | "c07.ops" :: h :: w :: starts :: stops :: exps :: prog => do
+    let h ← nat? h; let w ← nat? w
+    let pages ← pages? starts stops exps
+    let ops ← prog.mapM op?
+    match ← Stack.runOps pages ⟨0, pages.length, 1, ⟨0, w, 0, h⟩⟩ ops with
+    | .ok s => some ("ok " ++ showIntList s.frames ++ " " ++ showRoi s.roi)
+    | .error e => some e.show
+  | "c07.image" :: nch :: h :: w :: starts :: stops :: exps :: legacy :: prog => do
+    let nch ← nat? nch; let h ← nat? h; let w ← nat? w
+    let pages ← pages? starts stops exps
+    let _ ← bool? legacy
+    let t0 : TStack := ⟨⟨0, pages.length, 1, ⟨0, w, 0, h⟩⟩, Tether.new 0.0 0.0 none, none⟩
+    match ← runProg pages t0 prog with
+    | .error e => some e.show
+    | .ok t =>
+      some ("image " ++ "|".intercalate ((List.range nch).map fun ch =>
+        "/".intercalate ((t.stk.image (encPage h w nch ch)).map (showListList showInt))))
+  | "c07.kymo" :: nch :: h :: w :: starts :: stops :: exps :: legacy :: prog => do
+    let nch ← nat? nch; let h ← nat? h; let w ← nat? w
+    let pages ← pages? starts stops exps
+    let _ ← bool? legacy
+    let (hw, red) ← match (prog.getLast?).map (·.splitOn ",") with
+      | some ["k", hw] => (int? hw).map fun v => (v, Reduce.sum)
+      | some ["k", hw, "sum"] => (int? hw).map fun v => (v, Reduce.sum)
+      | some ["k", hw, "max"] => (int? hw).map fun v => (v, Reduce.max)
+      | some ["k", hw, "min"] => (int? hw).map fun v => (v, Reduce.min)
+      | _ => none
+    let t0 : TStack := ⟨⟨0, pages.length, 1, ⟨0, w, 0, h⟩⟩, Tether.new 0.0 0.0 none, none⟩
+    match ← runProg pages t0 prog.dropLast with
+    | .error e => some e.show
+    | .ok t =>
+      let ends := t.teth.endsProcessed.map fun (a, b) => (floorInt a.x, floorInt a.y, floorInt b.x, floorInt b.y)
+      let ks ← (List.range nch).mapM fun ch => t.stk.toKymo pages (encPage h w nch ch) ends hw red
+      match ks with
+      | [] => none
+      | .error e :: _ => some e.show
+      | .ok k :: _ =>
+        let imgs := ks.map fun r => match r with
+          | .ok k => showListList showInt k.image
+          | .error e => e.show
+        some ("kymo " ++ toString k.lineTime ++ " " ++ toString k.exposure ++ " " ++ toString k.start ++ " "
+          ++ "|".intercalate imgs)
   | ["c07.indices", a, b, c, n] => do
     let a ← optInt? a; let b ← optInt? b; let c ← int? c; let n ← nat? n
     if c = 0 then some "ValueError"
